@@ -218,6 +218,13 @@ class ScriptedApp:
                 err = await self._send(inst, send, op[1])
                 if err is not None and not (len(op) > 2 and op[2] == "tolerate"):
                     raise err
+            elif name == "send_in_group":
+                # the send happens in a child task of the application's own task group
+                # (anyio-style frameworks): a failure it raises surfaces wrapped in a group
+                err = await self._send(inst, send, op[1])
+                if err is not None:
+                    inst.exit = "raise:ExceptionGroup"
+                    raise ExceptionGroup("application task group", [err])
             elif name == "universal":
                 # serve whatever arrives: echo HTTP bodies, accept and echo WebSockets
                 if inst.scope.get("type") == "websocket":
